@@ -109,7 +109,7 @@ M('c06_apply_update_self', ['C06', 'C09'], ['C06-R2', 'C09-R3'], 'handle_data on
 
 # ---------------------------------------------------------------- C07
 PAYLOAD = 'src/payload.rs'
-M('c07_turnundead_allows_custom', ['C07', 'C16'], ['C07-R3'], 'TurnUndead may carry custom broadcasts (the v0.17.2 bug)',
+M('c07_turnundead_allows_custom', ['C07', 'C16'], ['C07-R3', 'C16-R3'], 'TurnUndead may carry custom broadcasts (the v0.17.2 bug)',
   (PAYLOAD, '!matches!(self, Self::Announce | Self::TurnUndead)\n', '!matches!(self, Self::Announce)\n'))
 M('c07_broadcast_piggybacks', ['C07', 'C15'], ['C07-R3'], 'Broadcast datagrams get a member section',
   (PAYLOAD, '!matches!(self, Self::Announce | Self::TurnUndead | Self::Broadcast)', '!matches!(self, Self::Announce | Self::TurnUndead)'))
@@ -140,7 +140,7 @@ M('c07_raw_push_after_header', ['C07'], ['C07-R2'], 'a byte pushed on the inner 
   (LIB, '        // If we\'re piggybacking data, we need at least 2 extra bytes\n', '        buf.get_mut().push(0);\n        // If we\'re piggybacking data, we need at least 2 extra bytes\n'))
 M('c07_updates_in_feed', ['C07', 'C15'], ['C07-R3'], 'cluster updates piggybacked instead of active members on Feed',
   (LIB, '            if header.message.piggyback_only_active() {\n                self.choice_buf.clear();', '            if !header.message.piggyback_only_active() {\n                self.choice_buf.clear();'))
-M('c07_custom_gate_dropped', ['C07', 'C16'], ['C07-R3'], 'custom broadcasts attached without asking the handler',
+M('c07_custom_gate_dropped', ['C07', 'C16'], ['C07-R3', 'C16-R3'], 'custom broadcasts attached without asking the handler',
   (LIB, '            && header.message.allow_custom_broadcasts()\n            // Unless the broadcast handler says no\n            && self.broadcast_handler.should_add_broadcast_data(&dst);',
    '            && header.message.allow_custom_broadcasts();'))
 
@@ -503,3 +503,57 @@ M('c15_max_tx_constant', ['C15'], ['C15-R1'], 'updates are queued with a fixed n
    '                self.updates\n                    .add_or_replace(addr, data, self.config.num_indirect_probes.get());\n            }\n\n            // Down is a terminal state'))
 M('c15_addr_key_by_generation', ['C15'], ['C15-R1'], 'backlog key compares more than the address... inverted: never invalidates',
   (LIB, '        self.0 == other.0\n    }\n}', '        self.0 != other.0\n    }\n}'))
+
+# ---------------------------------------------------------------- C16
+M('c16_store_whole_remainder', ['C16'], ['C16-R1'], 'a received item is stored with everything that follows it in the datagram',
+  (LIB, '                    pkt.to_vec(),\n', '                    data.to_vec(),\n'))
+M('c16_handler_sees_prefix', ['C16'], ['C16-R2'], 'the handler is shown the remaining buffer instead of the item',
+  (LIB, '                .receive_item(pkt, sender)', '                .receive_item(data, sender)'))
+M('c16_advance_only_when_accepted', ['C16', 'C06'], ['C16-R2'], 'rejected (stale) items are not skipped: shown again as garbage',
+  (LIB, '''                    self.config.max_transmissions.get().into(),
+                );
+            }
+            data.advance(pkt_len);''', '''                    self.config.max_transmissions.get().into(),
+                );
+                data.advance(pkt_len);
+            }'''))
+M('c16_sender_dropped', ['C16'], ['C16-R2'], 'received items are handed to the handler without the sender',
+  (LIB, 'let custom_broadcasts_result = self.handle_custom_broadcasts(data, Some(&src));', 'let custom_broadcasts_result = self.handle_custom_broadcasts(data, None);'))
+M('c16_zero_len_accepted', ['C16', 'C07'], ['C16-R2', 'C07-R5'], 'zero-length items are passed to the handler',
+  (LIB, 'if pkt_len == 0 || data.len() < pkt_len {', 'if data.len() < pkt_len {'))
+M('c16_add_broadcast_handler_first', ['C16', 'C17'], ['C16-R1', 'C17-R2'], 'add_broadcast calls the handler before validating the size',
+  (LIB, '''        // Not considering the whole header
+        if data.len() > self.config.max_packet_size.get()
+            // The length of each item is sent as a u16
+            || data.len() > usize::from(u16::MAX)
+        {
+            return Err(Error::DataTooBig);
+        }
+
+        if let Some(key) = self
+            .broadcast_handler
+            .receive_item(data, None)
+            .map_err(|e| Error::CustomBroadcast(Box::new(e)))?
+        {''', '''        if let Some(key) = self
+            .broadcast_handler
+            .receive_item(data, None)
+            .map_err(|e| Error::CustomBroadcast(Box::new(e)))?
+        {
+            if data.len() > self.config.max_packet_size.get() || data.len() > usize::from(u16::MAX) {
+                return Err(Error::DataTooBig);
+            }'''))
+M('c16_broadcast_sends_gossip', ['C16'], ['C16-R4'], 'broadcast() sends Gossip datagrams (with member updates)',
+  (LIB, 'self.send_message(chosen.into_identity(), Message::Broadcast, &mut runtime)?;', 'self.send_message(chosen.into_identity(), Message::Gossip, &mut runtime)?;'))
+M('c16_broadcast_ignores_recipient_filter', ['C16'], ['C16-R4'], 'broadcast() picks targets the handler would refuse',
+  (LIB, '            |member| self.broadcast_handler.should_add_broadcast_data(member),\n', '            |_member| true,\n'))
+M('c16_broadcast_no_early_exit', ['C16'], ['C16-R4'], 'broadcast() consumes rng/choice_buf even with an empty backlog',
+  (LIB, '''        if self.custom_broadcast_backlog() == 0 {
+            // Nothing to broadcast
+            return Ok(());
+        }
+
+        self.choice_buf.clear();''', '''        self.choice_buf.clear();'''))
+M('c16_broadcast_keeps_sending', ['C16'], ['C16-R4'], 'broadcast() keeps sending empty datagrams after the backlog drained',
+  (LIB, '''            if self.custom_broadcast_backlog() == 0 {
+                break;
+            }''', ''))
